@@ -313,3 +313,17 @@ func (in *Interp) lookupMethodByName(t types.Type, name string) value {
 	}
 	panic(unsupported("method " + name + " not found on " + t.String()))
 }
+
+func init() {
+	// math/big assembly kernels have pure Go twins (<name>_g) in the same package
+	for _, n := range []string{"addVV", "subVV", "addVW", "subVW", "shlVU", "shrVU", "mulAddVWW", "addMulVVW"} {
+		n := n
+		reg("math/big."+n, func(fr *frame, fn *ssa.Function, args []value) value {
+			g := fn.Pkg.Func(n + "_g")
+			if g == nil {
+				panic(unsupported("math/big." + n + "_g not found"))
+			}
+			return fr.in.callFunction(fr, g, args, nil)
+		})
+	}
+}
